@@ -8,7 +8,7 @@ RULE = ('random subsets of the six schedulable parameters, affine dyadic factor 
         'LambdaParamScheduler attached to a real preconditioner whose step count is advanced between calls; '
         'all values dyadic so float products are exact; constructor stream over every (scheduled, callable) '
         'pair; exp_decay over k=0..K and dyadic caps; non-trivial = ≥1 scheduled parameter and ≥2 calls'
-        '; unscheduled parameters held as callables of the step count, one function object shared by several parameters; real-valued parameters given as Python ints; public properties read before and after scheduler.step(); the decay schedule object asked again in a non-monotone order; histories cut where exact products leave the 53-bit significand')
+        '; decimal (non-dyadic) factors with truncation just below an integer; unscheduled parameters held as callables of the step count, one function object shared by several parameters; real-valued parameters given as Python ints; public properties read before and after scheduler.step(); the decay schedule object asked again in a non-monotone order; histories cut where exact products leave the 53-bit significand')
 TRUSTED = [
     'Lean 4.33 kernel; axioms audited ⊆ {propext, Classical.choice, Quot.sound}',
     'hand-written model KV.Sched tied to kfac/scheduler.py and kfac/hyperparams.py by this correspondence',
@@ -159,6 +159,7 @@ def run(ctx):
         ctx.compare('sched', case, mo, il)
 
     unscheduled_stream(ctx)
+    decimal_stream(ctx)
 
     # constructor: every (scheduled, callable) pattern --------------------------------------
     lines, pend = [], []
@@ -325,6 +326,49 @@ def unscheduled_stream(ctx):
         ctx.case(str(case) + str(calls), nontrivial=any(sched) and (any(call_) or shared))
         ctx.count('shared-function' if shared else 'distinct-functions')
         ctx.count('callable-unscheduled' if any(call_) else 'constant-unscheduled')
+
+
+def decimal_stream(ctx):
+    """decimal (non-dyadic) factors: the interval parameters are TRUNCATED products — 100 x 0.29 is 28.999999999999996 in
+    floating point and becomes 28, never 29 — and the real-valued ones are the plain float products.  Oracle: the same fold
+    in Python floats (int() for the two intervals), call by call."""
+    import torch
+    from kfac.preconditioner import KFACPreconditioner
+    from kfac.scheduler import LambdaParamScheduler
+    rng = ctx.rng
+    facs = [0.29, 0.57, 0.58, 1.15, 0.07, 0.1, 0.3, 0.7, 1.1, 2.3, 0.9, 0.99, 1.01, 0.35, 0.55, 1.45]
+    for _ in range(ctx.budget(200, 1500)):
+        vals = [rng.choice([100, 50, 10, 7, 200, 1000]), rng.choice([100, 20, 300, 9, 70]), rng.choice([0.003, 0.1, 0.03]),
+                rng.choice([0.95, 0.9, 0.5]), rng.choice([0.001, 0.01]), rng.choice([0.1, 0.01, 0.3])]
+        p = KFACPreconditioner(torch.nn.Linear(2, 2), **dict(zip(NAMES, vals)))
+        sched = [rng.random() < (0.8 if j < 2 else 0.4) for j in range(6)]
+        tabs = [[rng.choice(facs) for _ in range(12)] if sc else None for sc in sched]
+        kw = {n + '_lambda': (lambda st, t=t: t[st % len(t)]) for n, t in zip(NAMES, tabs) if t is not None}
+        s_ = LambdaParamScheduler(p, **kw)
+        want = list(vals)
+        calls = []
+        bad = None
+        for _c in range(rng.randrange(1, 5)):
+            p._steps += rng.choice([0, 1, 2])
+            arg = rng.choice([None, None, rng.randrange(0, 12)])
+            w_ = arg if arg is not None else p._steps
+            calls.append((p._steps, arg))
+            s_.step(arg) if arg is not None else s_.step()
+            for j, t in enumerate(tabs):
+                if t is not None:
+                    want[j] = int(want[j] * t[w_ % len(t)]) if j < 2 else want[j] * t[w_ % len(t)]
+            cur = [p.factor_update_steps, p.inv_update_steps, p.damping, p.factor_decay, p.kl_clip, p.lr]
+            for j, n in enumerate(NAMES):
+                if cur[j] != want[j] or (j < 2 and not isinstance(cur[j], int)):
+                    bad = f'after calls {calls}: {n} = {cur[j]!r}, expected {want[j]!r} (start {vals[j]!r}, factors {tabs[j]})'
+                    break
+            if bad or want[0] < 1 or want[1] < 1:
+                break
+        if bad:
+            ctx.fail(bad, {'stream': 'decimal', 'vals': vals, 'tables': tabs, 'calls': calls}, 'decimal-factors')
+        ctx.evaluations += 1
+        ctx.case(('decimal', str(vals), str(tabs), str(calls)), nontrivial=any(sched[:2]))
+        ctx.count('decimal-factors')
 
 
 def search(ctx):
